@@ -21,7 +21,7 @@ func (Engine) Scenarios(property string) []string {
 	case "C01":
 		return []string{"model", "disk", "disk-remote", "model-outcomes", "disk-crash"}
 	case "C02":
-		return []string{"model", "disk", "readonly"}
+		return []string{"model", "disk", "disk-edits", "readonly"}
 	case "C03":
 		return []string{"model-untracked", "disk-untracked"}
 	case "C04":
